@@ -56,6 +56,12 @@ def history_oracle(rep, cases, opts_of, rundir, profiles=("debug",), on_result=s
     seen_kinds = set()
     for prof in profiles:
         results = run_many(cases, opts_of, rundir, profile=prof, on_result=on_result, timeout=timeout)
+        # a run that hit the wall-clock limit is repeated ALONE with ten times the limit before it is called a hang: sixteen
+        # long histories in parallel on a loaded machine can exceed any fixed per-history limit
+        for k, (label, text, r) in enumerate(results):
+            p = first_problem(r)
+            if p is not None and "timed out" in str(p[3]):
+                results[k] = run_many([(label, text)], opts_of, rundir, profile=prof, on_result=on_result, timeout=timeout * 10)[0]
         for label, text, r in results:
             nontriv = r.get("n", 0) > 5
             rep.count(label, text, nontriv)
